@@ -17,7 +17,11 @@ def modelled : List String := [
   "babyjub.UnpackSignY",
   "utils.BigIntLEBytes",
   "utils.SetBigIntFromLEBytes",
-  "utils.SwapEndianness"
+  "utils.SwapEndianness",
+  "babyjub.<decls>@babyjub.go",
+  "babyjub.<decls>@eddsa.go",
+  "babyjub.<decls>@helpers.go",
+  "utils.<decls>@utils.go"
 ]
 
 theorem source_pinned : modelled.all (same I3.Gen.fingerprints) = true := by decide +kernel
@@ -25,6 +29,6 @@ theorem source_pinned : modelled.all (same I3.Gen.fingerprints) = true := by dec
 theorem function_set_pinned : (["babyjub.", "utils."] : List String).all (sameKeys I3.Gen.fingerprints) = true := by
   decide +kernel
 
-theorem modelled_nonempty : 9 = modelled.length := by decide
+theorem modelled_nonempty : 13 = modelled.length := by decide
 
 end I3.Props.C06
